@@ -156,7 +156,7 @@ func runAPI(wl Workload) Stress {
 				dp := delPaths[rr.Intn(len(delPaths))]
 				qp := queryPaths[rr.Intn(len(queryPaths))]
 				v := int64(1 + rr.Intn(9))
-				k := rr.Pick(30, 8, 6, 6, 6, 6, 5, 5, 5, 5, 4, 6, 3, 5)
+				k := rr.Pick(30, 8, 6, 6, 6, 6, 5, 5, 5, 5, 4, 6, 3, 5, 6)
 				if k == 0 || k == 11 {
 					note(lp, v) // before the call: a concurrent reader may see it at once
 				}
@@ -199,6 +199,25 @@ func runAPI(wl Workload) Stress {
 							if _, ok := l.Value().(int64); ok {
 								l.Update(v)
 							}
+						}
+					case 14:
+						// visitors that give up with an error: Query, Walk, WalkSorted
+						// must come back with it and leave no lock behind
+						cnt, lim := 0, rr.Intn(3)
+						bad := func(path []string, _ *ctree.Leaf, val interface{}) error {
+							cnt++
+							if cnt > lim {
+								return fmt.Errorf("stop")
+							}
+							return nil
+						}
+						switch i % 3 {
+						case 0:
+							t.Query(qp, bad)
+						case 1:
+							t.Walk(bad)
+						default:
+							t.WalkSorted(bad)
 						}
 					case 12:
 						_ = t.String()
